@@ -73,7 +73,10 @@ def _r11_pointers_only_from_the_name_writer(ctx):
             rv = st.get("rv")
             if not rv or rv["k"] != "bin" or rv["op"] not in ("BitOr", "Add", "AddWithOverflow", "AddUnchecked", "BitXor"):
                 continue
-            vals = [const_int(o["k"]) for o in (rv["a"], rv["b"]) if o.get("k")]
+            if not any(o.get("k") for o in (rv["a"], rv["b"])):
+                continue
+            Tn = terms(P, b)
+            vals = [const_value(Tn.operand(o, bb, idx)) for o in (rv["a"], rv["b"]) if o.get("k")]      # named constants evaluated
             if not any(v in (0xC0, 0xC000) for v in vals):
                 continue
             n += 1
@@ -431,30 +434,38 @@ def _r3_r4(ctx):
                 if any(y[0] == "bin" and y[1].startswith(("Add", "BitOr")) and any(is_const(norm(z), 0xC0) for z in (y[2], y[3])) for y in subterms(a)):
                     emits.append((bb, tm, a))
         ctx.floor("R3", "pointer emission sites", len(emits), 2)
-        # target selection: assignments `child = Some(node)` in the lookup loop must be under data < 0x4000
-        sel = []
-        for bb, idx, s in b.stmts():
-            rv = s.get("rv")
-            if rv and rv["k"] == "agg" and rv.get("variant") == "Some" and len(s["p"]) == 1 and "DomainTree" in b.local_ty(s["p"][0]) and "&mut" in b.local_ty(s["p"][0]):
-                loops = [cfg.natural_loop(e) for e in cfg.back_edges()]
-                if any(bb in l for l in loops):
-                    sel.append((bb, s))
-
+        # target selection: assignments `child = Some(node)` in the lookup loop must be under data < 0x4000 — in the function itself or
+        # in a closure of it (`node.as_mut().and_then(|n| n.children.iter_mut().filter(..).last())`)
         def m(d):
             if d[0] == "bin" and d[1] in ("Lt", "Le", "Gt", "Ge"):
                 xs = [norm(d[2]), norm(d[3])]
-                cs = [x[1] for x in xs if x[0] == "const"]
+                cs = [const_value(x) for x in xs if const_value(x) is not None]
                 fs = [x for x in xs if x[0] == "field" and x[2] == "data"]
                 return bool(cs) and bool(fs) and cs[0] in (0x4000, 0x3fff)
             return False
-        small = []
-        for sbb, d, te, fe in bool_switches(P, b, m):
-            data_first = norm(d[2])[0] == "field"
-            if d[1] in ("Lt", "Le"):
-                small.extend(te if data_first else fe)
-            else:
-                small.extend(fe if data_first else te)
-        okk = bool(sel) and all(edge_dominated(cfg, small, bb) for bb, _ in sel)
+        n_sel = 0
+        okk = True
+        for x in P.family(f):
+            xcfg = cfg_of(x)
+            xloops = [xcfg.natural_loop(e) for e in xcfg.back_edges()]
+            sel = []
+            for bb, idx, s in x.stmts():
+                rv = s.get("rv")
+                if rv and rv["k"] == "agg" and rv.get("variant") == "Some" and len(s["p"]) == 1 and "DomainTree" in x.local_ty(s["p"][0]) and "&mut" in x.local_ty(s["p"][0]):
+                    if any(bb in l for l in xloops):
+                        sel.append((bb, s))
+            if not sel:
+                continue
+            small = []
+            for sbb, d, te, fe in bool_switches(P, x, m):
+                data_first = norm(d[2])[0] == "field"
+                if d[1] in ("Lt", "Le"):
+                    small.extend(te if data_first else fe)
+                else:
+                    small.extend(fe if data_first else te)
+            n_sel += len(sel)
+            okk = okk and all(edge_dominated(xcfg, small, bb) for bb, _ in sel)
+        okk = okk and n_sel >= 1
         ctx.check(okk, "R3", "pointer-target-only-if-offset<0x4000" if okk else "pointer-target-offset-unbounded", ctx.where(b),
                   "a compression pointer has 14 bits: a suffix-tree node may be chosen as the target of a pointer only on the true edge of "
                   "node.offset < 0x4000 (RFC 1035 4.1.4); without that bound names first written at offset >= 16384 (large TCP replies) "
